@@ -43,6 +43,7 @@ type c11Runner struct {
 	cbReg     []bool
 	cb        []int32
 	nextID    uint32
+	svcSeq    int // frames of type Call fed so far (c11blocked.go)
 	faulted   bool
 	faultAt   time.Time
 	userClose chan error
